@@ -44,6 +44,7 @@ def run_case(c):
     viol = []
     obs = {"sequences": 1, "box_" + kind: 1}
     ctor_args = None
+    via_solver = False
     if c["i"] % 2:
         # the object is constructed from the caller's own float64 arrays: they must stay untouched whatever is done to the object later
         c_lo, c_hi = np.array(lo, dtype=np.double), np.array(hi, dtype=np.double)
@@ -53,6 +54,12 @@ def run_case(c):
         twin = Evolvent(c_lo, c_hi, N, m)
         twin_box = (list(lo), list(hi))
         obs["constructed_from_caller_arrays"] = 1
+    elif c["i"] % 6 == 2 and N * m <= 50:
+        # the object is the public Solver.evolvent of a Solver configured with this box and density; other Solvers with the same N and m
+        # (over other boxes) are built and stepped while it is being queried
+        ev = em.solver_evolvent(lo, hi, N, m, rng, obs)
+        twin = None
+        via_solver = True
     else:
         ev = Evolvent(lo, hi, N, m)
         twin = None
@@ -76,6 +83,10 @@ def run_case(c):
         return (lo_a + rng.random(N) * (hi_a - lo_a)), False
 
     for k in range(c["ops"]):
+        if via_solver and rng.random() < 0.04:
+            olo, ohi, _ = scenario.gen_box(rng, N)
+            em.solver_evolvent(olo, ohi, N, m, rng, obs)
+            obs["solvers_built_while_a_solver_evolvent_was_queried"] = obs.get("solvers_built_while_a_solver_evolvent_was_queried", 0) + 1
         u = rng.random()
         if u < 0.45:
             ch = rng.random()
@@ -214,7 +225,7 @@ def run_case(c):
 
 
 def finalize(obs, tier, stats):
-    for k in ("ops_image", "ops_inverse", "ops_preimages", "ops_setbounds", "integer_typed_args", "roundtrip_args", "image_of_previous_inverse", "box_special", "box_unit", "box_far", "kept_argument_arrays_rechecked", "work_buffer_args", "setbounds_with_reused_objects", "constructed_from_reused_buffers", "constructed_from_caller_arrays"):
+    for k in ("ops_image", "ops_inverse", "ops_preimages", "ops_setbounds", "integer_typed_args", "roundtrip_args", "image_of_previous_inverse", "box_special", "box_unit", "box_far", "kept_argument_arrays_rechecked", "work_buffer_args", "setbounds_with_reused_objects", "constructed_from_reused_buffers", "constructed_from_caller_arrays", "evolvents_built_by_a_solver", "solvers_built_while_a_solver_evolvent_was_queried"):
         if not obs.get(k):
             return "operation class %s never exercised" % k, {}
     return None, {}
